@@ -266,7 +266,13 @@ impl Method for TSI {
 	type Params = (PeriodType, PeriodType);
 	type Input = ValueType;
 	type Output = ValueType;
-	open spec fn inv(&self) -> bool { self.ema11.inv() && self.ema12.inv() && self.ema21.inv() && self.ema22.inv() }
+	// both branches use the same smoothing factors, and each smoothed momentum is dominated by the equally smoothed |momentum|
+	// (the inductive invariant behind the documented range [-1; 1], C12)
+	open spec fn inv(&self) -> bool {
+		&&& self.ema11.inv() && self.ema12.inv() && self.ema21.inv() && self.ema22.inv()
+		&&& self.ema11.alpha@ == self.ema21.alpha@ && self.ema12.alpha@ == self.ema22.alpha@
+		&&& rabs(self.ema11.value@) <= self.ema21.value@ && rabs(self.ema12.value@) <= self.ema22.value@
+	}
 	open spec fn rejects(parameters: (PeriodType, PeriodType)) -> bool { parameters.0 == 0 || parameters.1 == 0 }
 	open spec fn new_req(parameters: (PeriodType, PeriodType), initial_value: &ValueType) -> bool { true }
 	open spec fn fresh(parameters: (PeriodType, PeriodType), initial_value: &ValueType, s: &Self) -> bool {
@@ -281,11 +287,41 @@ impl Method for TSI {
 	}
 //@extract src/methods/tsi.rs impl[Method for TSI]::new
 	ensures (r is Ok) == (params.0 != 0 && params.1 != 0),
+//@hint result
+	proof {
+		if r is Ok {
+			let s = r->Ok_0;
+			let (n1, n0) = ((params.1 as real) + 1real, (params.0 as real) + 1real);
+			assert(s.ema11.alpha@ == s.ema21.alpha@) by(nonlinear_arith) requires s.ema11.alpha@ * n1 == 2real, s.ema21.alpha@ * n1 == 2real, n1 >= 1real;
+			assert(s.ema12.alpha@ == s.ema22.alpha@) by(nonlinear_arith) requires s.ema12.alpha@ * n0 == 2real, s.ema22.alpha@ * n0 == 2real, n0 >= 1real;
+		}
+	}
 //@end
 //@extract src/methods/tsi.rs impl[Method for TSI]::next
+	// C12: the documented range
+	ensures -1real <= r@ <= 1real,
+//@hint before self.peek()
+	proof {
+		let (a, b) = (old(self).ema11.alpha@, old(self).ema12.alpha@);
+		let (m, am) = (momentum@, rabs(momentum@));
+		let (e11, e21, e12, e22) = (old(self).ema11.value@, old(self).ema21.value@, old(self).ema12.value@, old(self).ema22.value@);
+		lemma_ema_dominated(a, e11, e21, m, am);
+		lemma_ema_dominated(b, e12, e22, self.ema11.value@, self.ema21.value@);
+		let (p, q) = (self.ema12.value@, self.ema22.value@);
+		if q > 0real { assert(-1real <= p / q <= 1real) by(nonlinear_arith) requires q > 0real, -q <= p <= q; }
+	}
 //@end
 }
 
+// one EMA step keeps |e| <= f when the inputs satisfy |x| <= y and the factor is in (0, 1]
+pub proof fn lemma_ema_dominated(a: real, e: real, f: real, x: real, y: real)
+	requires 0real < a <= 1real, rabs(e) <= f, rabs(x) <= y
+	ensures rabs(e + a * (x - e)) <= f + a * (y - f)
+{
+	assert(e + a * (x - e) == (1real - a) * e + a * x && f + a * (y - f) == (1real - a) * f + a * y) by(nonlinear_arith);
+	assert((1real - a) * e <= (1real - a) * f && -((1real - a) * f) <= (1real - a) * e) by(nonlinear_arith) requires 0real < a <= 1real, -f <= e <= f;
+	assert(a * x <= a * y && -(a * y) <= a * x) by(nonlinear_arith) requires 0real < a <= 1real, -y <= x <= y;
+}
 // C08: a recurrence seeded with v and fed v stays at v (fixed point), one inductive step each
 pub proof fn ema_const_step(pre: EMA, v: R, post: EMA, out: R)
 	requires pre.inv(), pre.value@ == v@, EMA::step(&pre, &v, &post, &out)
